@@ -810,6 +810,87 @@ def statemachine_case(seed, role="client", length=6):
         return info
 
 
+def twin_nodes_case(seed, n=1500):
+    """Two node objects with the *same* local identity in one process (one client identity, two servers), both peers sending
+    watchdog requests at full speed with a tiny interpreter switch interval: every DWA on each connection must answer that
+    connection's requests, in order, with their identifiers."""
+    import sys
+    rng = random.Random(seed)
+    info = {"kind": "twins", "seed": seed, "n": n}
+    a, b = RealScenario("client"), RealScenario("client")
+    old = sys.getswitchinterval()
+    try:
+        a.open()
+        b.open()
+        sys.setswitchinterval(1e-6)
+        results = {}
+
+        def hammer(tag, sc, base):
+            try:
+                ids = [(base + k, (base ^ 0x5a5a0000) + k) for k in range(n)]
+                got = []
+                sent = 0
+                while len(got) < n:
+                    burst = min(n - sent, rng.choice([1, 2, 5, 20]))
+                    if burst:
+                        sc.psock.sendall(b"".join(R.encode(N.dwr(hbh=h, e2e=e)) for h, e in ids[sent:sent + burst]))
+                        sent += burst
+                    lms, _ = sc.recv_messages(min(burst or 1, n - len(got)))
+                    got += [(N.name_of(m), m.hbh, m.e2e) for m in lms]
+                want = [("DWA", h, e) for h, e in ids]
+                bad = [(i, g, w) for i, (g, w) in enumerate(zip(got, want)) if g != w]
+                results[tag] = bad[:3]
+            except (Timeout, Garbled) as ex:
+                results[tag] = "timeout: %s" % ex
+        ta = threading.Thread(target=hammer, args=("A", a, 0x10000000), daemon=True)
+        tb = threading.Thread(target=hammer, args=("B", b, 0x70000000), daemon=True)
+        ta.start(); tb.start()
+        ta.join(a.deadline * 2); tb.join(a.deadline * 2)
+        sys.setswitchinterval(old)
+        if ta.is_alive() or tb.is_alive() or any(isinstance(v, str) for v in results.values()):
+            info.update(result="timeout", detail="twin exchange did not complete: %s" % {k: v for k, v in results.items() if isinstance(v, str)})
+            return info
+        bad = {k: v for k, v in results.items() if v}
+        if bad:
+            info.update(result="violation", key="real-loopback-base-answers-differ", detail="two nodes with the same local identity: %s" % bad)
+            return info
+        info["answers_checked"] = 2 * n
+        problems = []
+        for sc in (a, b):
+            sc.node.close()
+        for sc in (a, b):
+            (dpr,), _ = sc.recv_messages(1)
+            sc.psock.sendall(R.encode(N.dpa(hbh=dpr.hbh, e2e=dpr.e2e)))
+        for sc in (a, b):
+            sc.wait(lambda sc=sc: sc.node.get_current_state() == "Closed", "closed", 30)
+            sc.abort()
+
+        def leftover():
+            return [t.name for t in threading.enumerate() if t not in a.threads_before and t.is_alive() and not t.daemon]
+        try:
+            a.wait(lambda: not leftover(), "threads", 20)
+        except Timeout:
+            problems.append("threads still alive after both nodes closed: %s" % leftover())
+        extra = [f for f in open_fds() if f not in a.fds_before and "eventpoll" not in f]
+        if extra:
+            problems.append("sockets still open after both nodes closed: %s" % extra)
+        if problems:
+            info.update(result="violation", key="real-loopback-teardown", detail="; ".join(problems))
+            return info
+        info.update(result="ok")
+        return info
+    except Timeout as ex:
+        info.update(result="timeout", detail=str(ex))
+        return info
+    except Garbled as ex:
+        info.update(result="violation", key="real-loopback-outbound-stream-garbled", detail=str(ex))
+        return info
+    finally:
+        sys.setswitchinterval(old)
+        a.abort()
+        b.abort()
+
+
 DEATHS = []
 
 
@@ -822,7 +903,7 @@ def _excepthook(args):
 def run_cases(acc, cases):
     """cases: [{'kind','seed','role',...}] executed one after another; a timeout is retried once, alone, before it counts."""
     threading.excepthook = _excepthook          # uncaught exceptions of the node's threads go into the report, not to stderr
-    fn = {"inbound": inbound_case, "outbound": outbound_case, "lifecycle": lifecycle_case, "base": base_answers_case, "statemachine": statemachine_case}
+    fn = {"inbound": inbound_case, "outbound": outbound_case, "lifecycle": lifecycle_case, "base": base_answers_case, "statemachine": statemachine_case, "twins": twin_nodes_case}
     if any(c["kind"] == "app" for c in cases):
         from . import realapp
         fn["app"] = realapp.app_case
